@@ -1183,7 +1183,7 @@ def _check_boundary(ctx: Ctx, mod, worlds: dict) -> None:
         t = w.search[a]
         hi_node = w.coordmap(_arr([n[j] - 1 for j in range(d)]).reshape(-1, 1)).ravel()[a]       # = high_a
         kmax = t.subs({xs[a]: hi_node}, simultaneous=True)
-        kmax = sp.simplify(kmax)
+        kmax = sp.expand(kmax)
         if _eq0(kmax - (n[a] - 1)):
             axes.append(a)        # base index n_a - 1 is reachable: vertex n_a is outside the grid
         elif _eq0(kmax - (n[a] - 2)):
